@@ -318,3 +318,51 @@ def free_names_defined(ctx, rule, select=lambda fi: True):
         n += 1
         ctx.ob(rule, fi, not missing, "%s reads only names that are bound in its scope, an enclosing scope, the package or builtins%s" % (fi.qual, (" (unbound: %s)" % missing) if missing else ""), key="free names")
     return n
+
+
+def parents(node):
+    """Enclosing AST nodes, innermost first (the model links every node to its parent)."""
+    p = getattr(node, "_parent", None)
+    while p is not None:
+        yield p
+        p = getattr(p, "_parent", None)
+
+
+def self_capturing_closures(model):
+    """[(FuncInfo, assignment node, name, captures)] for every `name = lambda ...: body` inside a function where `name` is also bound elsewhere
+    in that function (a parameter or another assignment).  `captures` is True when the body reads `name`: Python closures bind late, so the
+    lambda then sees *itself* (always truthy), not the value `name` had when the lambda was written."""
+    import ast as _ast
+    out = []
+    for fi in model.all_functions():
+        fn = fi.node
+        a = fn.args
+        params = {x.arg for x in a.posonlyargs + a.args + a.kwonlyargs}
+        stores = {}
+        for x in _ast.walk(fn):
+            if isinstance(x, _ast.Name) and isinstance(x.ctx, _ast.Store):
+                stores[x.id] = stores.get(x.id, 0) + 1
+        for st in _ast.walk(fn):
+            if not (isinstance(st, _ast.Assign) and len(st.targets) == 1 and isinstance(st.targets[0], _ast.Name) and isinstance(st.value, _ast.Lambda)):
+                continue
+            name = st.targets[0].id
+            if name not in params and stores.get(name, 0) < 2:
+                continue
+            la = st.value.args
+            own = {x.arg for x in la.posonlyargs + la.args + la.kwonlyargs} | ({la.vararg.arg} if la.vararg else set()) | ({la.kwarg.arg} if la.kwarg else set())
+            defaults = {id(n) for d in la.defaults + [k for k in la.kw_defaults if k is not None] for n in _ast.walk(d)}
+            reads = any(isinstance(n, _ast.Name) and n.id == name and id(n) not in defaults for n in _ast.walk(st.value.body)) and name not in own
+            out.append((fi, st, name, reads))
+    return out
+
+
+def no_self_capture(ctx, rule):
+    """Obligation per rebinding lambda of the package; positive control on a snippet."""
+    n = 0
+    for fi, st, name, reads in self_capturing_closures(ctx.model):
+        n += 1
+        ctx.ob(rule, fi, not reads, "%s rebinds `%s` to a lambda; the lambda's body must not read `%s` (closures bind late: it would see the lambda itself, which is always truthy, instead of the previous value)" % (fi.qual, name, name),
+               key="rebinding lambda %s" % name, node=st)
+    cm = control_model("def f(p):\n    if not callable(p):\n        p = lambda a: p\n    return p(1)\n")
+    ctx.control(rule + " self-capture", any(r for _, _, _, r in self_capturing_closures(cm)), "(late-binding lambda)")
+    return n
